@@ -569,11 +569,87 @@ func (r *refEval) evalForm(f []sx, e *env) (sx, *exit) {
 			return str(""), nil
 		}
 		return v, ex
-	case "make-string-input-stream":
+	case "make-string-input-stream", "make-string-output-stream":
 		if _, ex := r.args(rest, e); ex != nil {
 			return nil, ex
 		}
 		return handle{"stream"}, nil
+	case "with-zip-writer":
+		// binds a stream; documented to return nil when its body completes
+		spec, _ := rest[0].([]sx)
+		if _, ex := r.eval(spec[1], e); ex != nil {
+			return nil, ex
+		}
+		ze := e.child()
+		ze.bind(symName(spec[0]), handle{"stream"})
+		if _, ex := r.body(rest[1:], ze); ex != nil {
+			return nil, ex
+		}
+		return nil, nil
+	case "find-package":
+		av, ex := r.args(rest, e)
+		if ex != nil {
+			return nil, ex
+		}
+		name, _ := av[0].(str)
+		return handle{"package:" + string(name)}, nil
+	case "channel-push":
+		if _, ex := r.args(rest, e); ex != nil {
+			return nil, ex
+		}
+		return nil, nil
+	case "select":
+		// one clause on a channel that holds an item: (select (ch var body...))
+		if len(rest) != 1 {
+			return r.unsup("select")
+		}
+		clause, _ := rest[0].([]sx)
+		if _, ex := r.eval(clause[0], e); ex != nil {
+			return nil, ex
+		}
+		ce := e.child()
+		ce.bind(symName(clause[1]), int64(1))
+		return r.body(clause[2:], ce)
+	case "do-symbols", "do-external-symbols", "do-all-symbols":
+		// iteration over the symbols of a package: a nil block around an
+		// implicit tagbody per symbol, then the result form with the
+		// variable bound to nil
+		spec, _ := rest[0].([]sx)
+		var items []sx
+		if head == "do-all-symbols" {
+			// unknown many: the harness's body leaves in the first round
+			items = make([]sx, 100000)
+		} else {
+			v, ex := r.eval(spec[1], e)
+			if ex != nil {
+				return nil, ex
+			}
+			switch v {
+			case handle{"package:c07-two"}:
+				items = []sx{sym("aa"), sym("bb")}
+			case handle{"package:c07-zero"}:
+			default:
+				return r.unsup("do-symbols package")
+			}
+		}
+		return r.block("nil", []sx{loopBodyV(func(le *env) (sx, *exit) {
+			for _, it := range items {
+				ie := le.child()
+				ie.bind(symName(spec[0]), it)
+				if ex := r.tagbody(rest[1:], ie); ex != nil {
+					return nil, ex
+				}
+				if r.budget < 0 {
+					return r.unsup("budget")
+				}
+			}
+			if len(spec) > 2 {
+				re := le.child()
+				re.bind(symName(spec[0]), nil)
+				return r.eval(spec[2], re)
+			}
+			return nil, nil
+		})}, e)
 	case "with-slots":
 		if symName(rest[1]) != "c07-inst" {
 			return r.unsup("with-slots")
@@ -1034,6 +1110,7 @@ func refRun(forms []sx, mutexes, intrAt int) refResult {
 	for i := 0; i < mutexes; i++ {
 		top.bind(fmt.Sprintf("m%d", i), handle{"mutex"})
 	}
+	top.bind("c07-sel", handle{"channel"})
 	v, ex := r.body(forms, top)
 	res := refResult{marks: r.marks, unsup: r.unsupported, steps: r.steps}
 	if ex != nil {
